@@ -127,13 +127,13 @@ def J(v):
 
 M0 = {'DROP': 'MDrop', 'DUP': 'MDup', 'SWAP': 'MSwap', 'PAIR': 'MPair', 'UNPAIR': 'MUnpair', 'CAR': 'MCar', 'CDR': 'MCdr',
       'SOME': 'MSome', 'UNIT': 'MUnit', 'UPDATE': 'MUpdate', 'GET': 'MGet', 'GET_AND_UPDATE': 'MGetAndUpdate', 'ADD': 'MAdd',
-      'FAILWITH': 'MFailwith'}
+      'FAILWITH': 'MFailwith', 'APPLY': 'MApply', 'CONS': 'MCons'}
 MT = {'NONE': 'MNone', 'NIL': 'MNil'}
 I0 = {'COMMIT': 'ICommit', 'BIG_MAP_DIFF': 'IBigMapDiff', 'RESET': 'IReset'}
 
 
 def is_m(i):
-    return i[0] in M0 or i[0] in MT or i[0] in ('PUSH', 'EMPTY_BIG_MAP', 'DIP', 'IF_NONE', 'DIPN', 'IF', 'LOOP', 'LAMBDA', 'EXEC', 'PATCH')
+    return i[0] in M0 or i[0] in MT or i[0] in ('PUSH', 'EMPTY_BIG_MAP', 'DIP', 'IF_NONE', 'DIPN', 'IF', 'LOOP', 'LAMBDA', 'EXEC', 'PATCH', 'SEQ', 'ITER', 'IF_CONS', 'MAP')
 
 
 def body_text(b):
@@ -150,12 +150,16 @@ def m_text(i):
         return f'EMPTY_BIG_MAP {ty_text(i[1], False)} {ty_text(i[2], False)}'
     if op == 'DIP':
         return f'DIP {body_text(i[1])}'
-    if op in ('IF_NONE', 'IF'):
+    if op in ('IF_NONE', 'IF', 'IF_CONS'):
         return f'{op} {body_text(i[1])} {body_text(i[2])}'
+    if op in ('ITER', 'MAP'):
+        return f'{op} {body_text(i[1])}'
     if op == 'DIPN':
         return f'DIP {i[1]} {body_text(i[2])}'
     if op == 'LOOP':
         return f'LOOP {body_text(i[1])}'
+    if op == 'SEQ':
+        return body_text(i[1])
     if op == 'LAMBDA':
         return f'LAMBDA {ty_text(i[1], False)} {ty_text(i[2], False)} {body_text(i[3])}'
     if op == 'PATCH':
@@ -173,12 +177,17 @@ def m_coq(i):
         return f'(MEmptyBigMap {ty_coq(i[1])} {ty_coq(i[2])})'
     if op == 'DIP':
         return f'(MDip {xlist('minstr', (m_coq(x) for x in i[1]))})'
-    if op in ('IF_NONE', 'IF'):
-        return f'({"MIfNone" if op == "IF_NONE" else "MIf"} {xlist('minstr', (m_coq(x) for x in i[1]))} {xlist('minstr', (m_coq(x) for x in i[2]))})'
+    if op in ('ITER', 'MAP'):
+        return f'({"MIter" if op == "ITER" else "MMap"} {xlist('minstr', (m_coq(x) for x in i[1]))})'
+    if op in ('IF_NONE', 'IF', 'IF_CONS'):
+        ctor = {'IF_NONE': 'MIfNone', 'IF': 'MIf', 'IF_CONS': 'MIfCons'}[op]
+        return f'({ctor} {xlist('minstr', (m_coq(x) for x in i[1]))} {xlist('minstr', (m_coq(x) for x in i[2]))})'
     if op == 'DIPN':
         return f'(MDipN {lib.cnat(i[1])} {xlist('minstr', (m_coq(x) for x in i[2]))})'
     if op == 'LOOP':
         return f'(MLoop {xlist('minstr', (m_coq(x) for x in i[1]))})'
+    if op == 'SEQ':
+        return f'(MSeq {xlist('minstr', (m_coq(x) for x in i[1]))})'
     if op == 'LAMBDA':
         return f'(MLambda {ty_coq(i[1])} {ty_coq(i[2])} {xlist('minstr', (m_coq(x) for x in i[3]))})'
     if op == 'EXEC':
@@ -455,6 +464,8 @@ def gen_lit(rng, t):
         return rng.choice([0, 1, -1, 2, 7, -5, 100, 2 ** 64])
     if k == 'nat':
         return rng.choice([0, 1, 2, 3, 9, 2 ** 63])
+    if k == 'bool':
+        return rng.random() < 0.5
     if k == 'mutez':
         return rng.choice([0, 1, 5, 2 ** 63 - 1])
     if k == 'string':
@@ -464,6 +475,8 @@ def gen_lit(rng, t):
     if k == 'option':
         return None if rng.random() < 0.3 else ('some', gen_lit(rng, t[1]))
     if k == 'list':
+        if t[1][0] in ('int', 'nat', 'string', 'unit', 'mutez', 'bool') and rng.random() < 0.7:
+            return [gen_lit(rng, t[1]) for _ in range(rng.randrange(1, 4))]
         return []
     raise AssertionError(t)
 
@@ -586,9 +599,9 @@ def nested_sites(code):
     """paths to the instruction lists inside DIP / DIP n / IF / IF_NONE / LOOP / LAMBDA bodies of a cell"""
     out = []
     for idx, i in enumerate(code):
-        if i[0] in ('DIP', 'LOOP'):
+        if i[0] in ('DIP', 'LOOP', 'ITER', 'MAP'):
             out.append((idx, 1))
-        elif i[0] in ('IF_NONE', 'IF'):
+        elif i[0] in ('IF_NONE', 'IF', 'IF_CONS'):
             out += [(idx, 1), (idx, 2)]
         elif i[0] == 'DIPN':
             out.append((idx, 2))
@@ -620,6 +633,18 @@ def phrase_control(rng, st, exact=False):
         if rng.random() < 0.5:
             return [('PUSH', BOOL, J(True)), ('LOOP', neutral_body(rng) + [('PUSH', BOOL, J(False))])]
         return [('PUSH', BOOL, J(False)), ('PUSH', BOOL, J(True)), ('PUSH', BOOL, J(True)), ('LOOP', neutral_body(rng))]
+    if r < 0.85:
+        et = rng.choice([NAT, INT, STRING, BOOL])
+        lit = J(gen_lit(rng, lst(et)))
+        q = rng.random()
+        if q < 0.4:
+            return [('PUSH', lst(et), lit), ('ITER', [('DROP',)] + neutral_body(rng))]
+        if q < 0.7:
+            return [('PUSH', lst(et), lit), ('IF_CONS', [('DROP',), ('DROP',)] + neutral_body(rng), neutral_body(rng))]
+        if q < 0.85:
+            return [('PUSH', lst(et), lit), ('PUSH', et, J(gen_lit(rng, et))), ('CONS',), ('ITER', [('DROP',)])]
+        mb = rng.choice([neutral_body(rng), [('DROP',), ('PUSH', STRING, J('m'))], [('DIP', neutral_body(rng))]])
+        return [('PUSH', lst(et), lit), ('MAP', mb), ('DROP',)]
     if exact and len(st) >= 1:
         n = rng.randrange(0, len(st) + 1)
         return [('DIPN', n, neutral_body(rng))]
@@ -633,6 +658,9 @@ def lambda_setup(rng):
     r = rng.random()
     if r < 0.35:
         return ('LAMBDA', UNIT, bm, [('DROP',), ('EMPTY_BIG_MAP', k, v)]), [('UNIT',)]
+    if r < 0.45:
+        # to be APPLY-ed by the caller: see [closure_cell]
+        return ('LAMBDA', pair(NAT, UNIT), bm, [('DROP',), ('EMPTY_BIG_MAP', k, v)]), None
     if r < 0.55:
         return (('LAMBDA', v, bm, [('EMPTY_BIG_MAP', k, v), ('SWAP',), ('SOME',), ('PUSH', k, J(gen_lit(rng, k))), ('UPDATE',)]),
                 [('PUSH', v, J(gen_lit(rng, v)))])
@@ -652,16 +680,26 @@ def indirect_ast_session(rng):
     """the modelled version of [indirect_session]: a lambda with a context effect is stored by one cell, later cells
     EXEC it directly or from DIP / DIP n / IF / IF_NONE / LOOP bodies without naming a context primitive, and fail or not"""
     lam_i, arg = lambda_setup(rng)
-    body = [('DUP',)] + arg + [('EXEC',), ('DROP',)]       # [lambda] -> [lambda]
+    body = [('DUP',)] + (arg or [('UNIT',)]) + [('EXEC',), ('DROP',)]       # [lambda] -> [lambda]
     wraps = [body, body, [('UNIT',), ('DIP', body), ('DROP',)], [('UNIT',), ('UNIT',), ('DIPN', 2, body), ('DROP',), ('DROP',)],
              [('PUSH', BOOL, J(True)), ('IF', body, [])], [('PUSH', option(NAT), J(None)), ('IF_NONE', body, [('DROP',)])],
              [('PUSH', BOOL, J(True)), ('LOOP', body + [('PUSH', BOOL, J(False))])],
-             [('PUSH', BOOL, J(False)), ('PUSH', BOOL, J(True)), ('PUSH', BOOL, J(True)), ('LOOP', body)], body + body]
+             [('PUSH', BOOL, J(False)), ('PUSH', BOOL, J(True)), ('PUSH', BOOL, J(True)), ('LOOP', body)], body + body,
+             [('PUSH', lst(NAT), J([1, 2])), ('ITER', [('DROP',)] + body)],
+             [('PUSH', lst(STRING), J(['a'])), ('IF_CONS', [('DROP',), ('DROP',)] + body, [])],
+             [('PUSH', lst(NAT), J([7])), ('MAP', [('DIP', body)]), ('DROP',)]]
     cells = []
     if rng.random() < 0.4:
         cells.append({'code': rng.choice([[('EMPTY_BIG_MAP', NAT, NAT), ('DROP',)], [('storage', big_map(STRING, NAT)), ('parameter', UNIT)],
                                           [('PATCH', 'AMOUNT', 1)]])})
-    cells.append({'code': [lam_i]})
+    if arg is None:
+        cells.append({'code': [lam_i, ('PUSH', NAT, J(rng.choice([0, 3, 9]))), ('APPLY',)]})    # an APPLY-ed closure
+        arg = [('UNIT',)]
+        body = [('DUP',)] + arg + [('EXEC',), ('DROP',)]
+        wraps = [body, [('UNIT',), ('DIP', body), ('DROP',)], [('PUSH', BOOL, J(True)), ('IF', body, [])],
+                 [('PUSH', BOOL, J(True)), ('LOOP', body + [('PUSH', BOOL, J(False))])], body + body]
+    else:
+        cells.append({'code': [lam_i]})
     for _ in range(rng.randrange(2, 6)):
         w = list(rng.choice(wraps))
         if rng.random() < 0.5:
@@ -777,8 +815,13 @@ def gen_cell(rng, view):
         elif r < 0.66:
             code += phrase_control(rng, st, exact=not code)
         elif r < 0.69:
-            code.append(lambda_setup(rng)[0])
-            st.insert(0, lam(code[-1][1], code[-1][2]))
+            li, la = lambda_setup(rng)
+            if la is None:
+                code += [li, ('PUSH', NAT, J(3)), ('APPLY',)]
+                st.insert(0, lam(UNIT, li[2]))
+            else:
+                code.append(li)
+                st.insert(0, lam(li[1], li[2]))
         elif r < 0.74 and sty is not None:
             # towards COMMIT: storage value, NIL operation, PAIR, COMMIT (possibly spread over cells)
             if st == [pair(lst(OPERATION), sty)]:
@@ -809,7 +852,7 @@ def gen_cell(rng, view):
             code.append((op,))
             st = []   # symbolic stack no longer tracked inside this cell
         else:
-            t = rng.choice([INT, NAT, STRING, UNIT, MUTEZ, option(NAT), pair(INT, STRING), lst(INT)])
+            t = rng.choice([INT, NAT, STRING, UNIT, MUTEZ, option(NAT), pair(INT, STRING), lst(INT), lst(STRING), BOOL])
             code.append(('PUSH', t, J(gen_lit(rng, t))))
             st.insert(0, t)
     return {'code': code, 'braces': rng.random() < 0.3}
@@ -997,15 +1040,20 @@ def all_bodies(cells):
             elif op == 'LAMBDA':
                 out.append(i[3])
                 visit(i[3])
-            elif op in ('DIP', 'LOOP'):
+            elif op in ('DIP', 'LOOP', 'SEQ', 'ITER', 'MAP'):
                 visit(i[1])
             elif op == 'DIPN':
                 visit(i[2])
-            elif op in ('IF', 'IF_NONE'):
+            elif op in ('IF', 'IF_NONE', 'IF_CONS'):
                 visit(i[1])
                 visit(i[2])
     for c in cells:
-        visit(c.get('code', []))
+        code = c.get('code', [])
+        visit(code)
+        # LAMBDA (pair a b) r { body } ; PUSH a lit ; APPLY  creates the code { PUSH a lit ; PAIR ; { body } }
+        for x, y, z in zip(code, code[1:], code[2:]):
+            if x[0] == 'LAMBDA' and y[0] == 'PUSH' and z[0] == 'APPLY':
+                out.append([y, ('PAIR',), ('SEQ', x[3])])
     seen, uniq = [], []
     for b in out:
         k = json.dumps(code_expr(b), sort_keys=True)
@@ -1120,7 +1168,7 @@ def run(ctx: lib.Ctx) -> None:
     from pytezos.michelson.tags import prim_tags
     ctx.rule = ('sessions of <= 8 (quick) / <= 14 (thorough) cells generated adaptively against a live Interpreter from the '
                 'property\'s alphabet (parameter/storage/code declarations, PUSH and stack shuffling, EMPTY_BIG_MAP, UPDATE/GET/'
-                'GET_AND_UPDATE, DIP / DIP n / IF / IF_NONE / LOOP with nested bodies, LAMBDA and EXEC of stored lambdas, PATCH AMOUNT/BALANCE/NOW, BEGIN/COMMIT/RUN, BIG_MAP_DIFF, RESET); about a third of the cells get a failure injected at a random '
+                'GET_AND_UPDATE, DIP / DIP n / IF / IF_NONE / IF_CONS / LOOP / ITER / MAP with nested bodies, CONS and list literals of atoms, LAMBDA / APPLY and EXEC of stored lambdas, PATCH AMOUNT/BALANCE/NOW, BEGIN/COMMIT/RUN, BIG_MAP_DIFF, RESET); about a third of the cells get a failure injected at a random '
                 'instruction position, also inside DIP / DIP n / IF / IF_NONE / LOOP / LAMBDA bodies (FAILWITH, ill-typed operand, stack underflow, mutez overflow, ill-typed literal, unpushable / invalid type, '
                 'undeclared BEGIN, bad COMMIT, parse error, unknown primitive, wrong arity); plus hand-written sessions and the '
                 'witness of fixed defect 19; two oracle-only streams (cells outside the model spliced in; lambdas with context effects stored on '
@@ -1309,12 +1357,12 @@ def fix_instr(i):
         return (op, i[1], i[2])
     if op == 'DIP':
         return ('DIP', [fix_instr(x) for x in i[1]])
-    if op in ('IF_NONE', 'IF'):
+    if op in ('IF_NONE', 'IF', 'IF_CONS'):
         return (op, [fix_instr(x) for x in i[1]], [fix_instr(x) for x in i[2]])
     if op == 'DIPN':
         return ('DIPN', i[1], [fix_instr(x) for x in i[2]])
-    if op == 'LOOP':
-        return ('LOOP', [fix_instr(x) for x in i[1]])
+    if op in ('LOOP', 'SEQ', 'ITER', 'MAP'):
+        return (op, [fix_instr(x) for x in i[1]])
     if op == 'LAMBDA':
         return ('LAMBDA', ty(i[1]), ty(i[2]), [fix_instr(x) for x in i[3]])
     if op == 'PATCH':
